@@ -277,6 +277,15 @@ func jsonType(v reflect.Value) (string, bool) {
 	if v.CanInt() || v.CanUint() {
 		return "integer", true
 	}
+	if v.Type() == jsonNumberType {
+		// A json.Number (from Decoder.UseNumber) is a number, although its kind is String.
+		if r, ok := jsonNumber(v); ok {
+			if r.IsInt() {
+				return "integer", true
+			}
+			return "number", true
+		}
+	}
 	if v.CanFloat() {
 		if _, f := math.Modf(v.Float()); f == 0 {
 			return "integer", true
@@ -295,6 +304,22 @@ func jsonType(v reflect.Value) (string, bool) {
 	default:
 		return "", false
 	}
+}
+
+var jsonNumberType = reflect.TypeFor[json.Number]()
+
+// isJSONString reports whether v holds a JSON string: a value of kind String
+// that is not a json.Number holding a number.
+func isJSONString(v reflect.Value) bool {
+	if v.Kind() != reflect.String {
+		return false
+	}
+	if v.Type() == jsonNumberType {
+		if _, ok := jsonNumber(v); ok {
+			return false
+		}
+	}
+	return true
 }
 
 func assert(cond bool, msg string) {
